@@ -40,9 +40,15 @@ class IocGen:
         # safe_rows: only row types whose descriptor has size-led `specifics` (outside the F105 region)
         self.safe_rows = safe_rows
 
-    def gen_module(self, name, shape="clean", nrows=None, open_opt=None, untagged=None, open_ext=None):
+    def gen_module(self, name, shape="clean", nrows=None, open_opt=None, untagged=None, open_ext=None, ids=None, idkind=None, opts=(),
+                   prim_rows=False):
+        """ids: explicit identifier values (one row each; octet-boundary modules); idkind: force INTEGER / CINT-inline / CINT-named;
+        opts: extra asn1c options of the module's bundle (-fwide-types: the identifier member and the table cells are INTEGER_t,
+        asn1c then only takes identifiers 0..32767); prim_rows: primitive row types only"""
         r = self.r
         assert shape in SHAPES
+        wide = "-fwide-types" in opts
+        if ids is not None: nrows = len(ids)
         tagdefault = "AUTOMATIC"
         manual_tags = False
         if shape == "clean" and (r.random() < 0.3 or untagged):
@@ -61,7 +67,7 @@ class IocGen:
             if self.safe_rows:
                 t = g.gen_type(0) if i else {"k": r.choice(SAFE_PRIM), "size": g.size_cons()}
                 while t["k"] not in ("SEQUENCE", "CHOICE", "SEQUENCE OF", "SET OF") + tuple(SAFE_PRIM): g.hoisted = []; t = g.gen_type(0)
-            elif i == 0: t = g.prim()
+            elif i == 0 or prim_rows: t = g.prim()
             elif i == 1:
                 t = g.gen_type(0)
                 while t["k"] not in ("SEQUENCE", "CHOICE", "SEQUENCE OF", "SET OF", "SET"): g.hoisted = []; t = g.gen_type(0)
@@ -77,17 +83,22 @@ class IocGen:
             types.append((rn, t)); g.env_types[rn] = t
             rows.append({"name": rn, "id": None})
         # identifiers
-        idkind = "OID" if shape == "oid" else r.choice(["INTEGER", "INTEGER", "CINT-inline", "CINT-named"])
-        if idkind == "OID":
+        drawn = r.choice(["INTEGER", "INTEGER", "CINT-inline", "CINT-named"])
+        idkind = "OID" if shape == "oid" else (idkind or drawn)
+        if wide and idkind == "CINT-inline": idkind = "CINT-named"     # region of finding F230 (long member vs INTEGER_t cells: the selector crashes)
+        if ids is not None and idkind != "OID":
+            ids = list(ids)
+        elif idkind == "OID":
             ids = []
             while len(ids) < nrows:
                 v = [r.choice([0, 1, 2]), r.choice([0, 5, 39])] + [r.choice([1, 2, 127, 128, 840, 113549]) for _ in range(r.choice([1, 2, 4]))]
                 if v not in ids: ids.append(v)
         elif idkind == "INTEGER":
-            pool = [0, 1, 2, 3, 7, 127, 128, 255, 256, 300, 32767, 32768, 65535, 65536, 2147483647, 2147483648, 4294967295, 4294967296, -1, -5, -128, -129, -32769]
+            pool = [0, 1, 2, 3, 7, 127, 128, 129, 255, 256, 257, 300, 32767, 32768, 65535, 65536, 2147483647, 2147483648, 4294967295, 4294967296, -1, -5, -128, -129, -256, -32769]
+            if wide: pool = [v for v in pool if 0 <= v <= 32767] + [126, 130, 254, 511, 512, 16383, 16384]
             ids = r.sample(pool, nrows) if nrows <= len(pool) else list(range(nrows))
         else:
-            pool = [0, 1, 2, 3, 7, 127, 128, 255, 256, 300, 1000, 16383, 16384, 32766, 32767]
+            pool = [0, 1, 2, 3, 7, 127, 128, 129, 255, 256, 257, 300, 1000, 16383, 16384, 32766, 32767]
             ids = r.sample(pool, nrows)
         for row, v in zip(rows, ids): row["id"] = v
         if shape == "dup_id": rows[2]["id"] = rows[0]["id"]
@@ -139,10 +150,10 @@ class IocGen:
             # BER / XER decode it since the repair of F22, UPER cannot: F109)
             frame["open_ext"] = True; frame["open_opt"] = True; frame["seq_ext"] = False
             frame["extras"] = [e for e in frame["extras"] if e["pos"] != "post"]
-        return {"name": name, "tagdefault": tagdefault, "types": types,
+        return {"name": name, "tagdefault": tagdefault, "types": types, "opts": tuple(opts),
                 "ioc": {"shape": shape, "finding": SHAPES[shape][0], "cls_order": "id" if (nrows == 1 or shape == "singleton") else r.choice(["id", "id", "type"]), "idkind": idkind,
                         "rows": rows, "items": items, "frame": frame}} if shape != "one_row_type_first" else \
-               {"name": name, "tagdefault": tagdefault, "types": types,
+               {"name": name, "tagdefault": tagdefault, "types": types, "opts": tuple(opts),
                 "ioc": {"shape": shape, "finding": "F107", "cls_order": "type", "idkind": idkind, "rows": rows, "items": items, "frame": frame}}
 
 def _tame(t):
